@@ -73,10 +73,13 @@ def fill(shape, rng, ctr):
 
 class PROP(PropCheck):
     id = "C05"
-    theorems = ["C05_ladder_is_reference", "C05_unary_is_reference", "C05_entry_points_are_reference", "C05_binop_of_token_is_reference", "C05_group_transparent"]
+    theorems = ["C05_ladder_is_reference", "C05_unary_is_reference", "C05_entry_points_are_reference", "C05_binop_of_token_is_reference", "C05_group_transparent",
+                "C05_parse_print", "C05_strip_expected", "C05_eval_ungroup", "C05_eval_fuel_mono", "C05_and_assoc_eval",
+                "C05_min_full_same_behaviour"]
+    audit_modules = ["C05", "C05b"]
     coq_imports = ["Obs"]
     model_targets = ["theories/Obs.vo"]
-    prop_targets = ["theories/Props/C05.vo"]
+    prop_targets = ["theories/Props/C05.vo", "theories/Props/C05b.vo"]
     harness_mode = "run"
     trusted_base = [
         "Coq 8.16.1 kernel and bytecode VM",
